@@ -88,6 +88,13 @@ Definition vmdk_sparse_gate (magic : list Z) : res unit :=
   gate (negb (zlist_eqb magic Gen.Consts.vmdk_VMDK_MAGIC || zlist_eqb magic Gen.Consts.vmdk_SESPARSE_MAGIC ||
               zlist_eqb magic Gen.Consts.vmdk_COWD_MAGIC)).
 
+(* SparseDisk picks its layout from the parsed header: hosted/COWD by the 4-byte magic, SESparse by the 64-bit magic
+   field of the constant header (whose low half is the 4 bytes sniffed before); no other layout exists *)
+Definition vmdk_layout_gate (magic : list Z) (magic64 : Z) : res unit :=
+  do _ <- vmdk_sparse_gate magic;
+  if zlist_eqb magic Gen.Consts.vmdk_VMDK_MAGIC || zlist_eqb magic Gen.Consts.vmdk_COWD_MAGIC then Ok tt
+  else gate (negb (magic64 =? Gen.Consts.vmdk_SESPARSE_CONST_HEADER_MAGIC)).
+
 (* hosted/COWD extents whose header says "grain directory at end" are re-read from the footer copy,
    through the same magic-checking constructor *)
 Definition vmdk_footer_gate (hdr_magic : list Z) (uses_footer : bool) (footer_magic : list Z) : res unit :=
